@@ -692,12 +692,25 @@ func c16RunHistory(r *mon.Run, h c16History, rerun bool) *c16Miss {
 			return true, miss("C16:silent", fmt.Sprintf("no packet sent within %v after a received packet (state %v)", silence, cur))
 		}
 		next = rec.Seq + 1
+		got := bfdref.State(rec.State)
+		// A branch explains the observation if it predicts the observed state
+		// and no detection timeout was possible on it before the packet was
+		// sent. If no branch does, but on some branch a timeout was possible
+		// (which would explain the observed state or Down), the case cannot
+		// be judged.
+		explained, maybeTimeout := false, false
 		for _, b := range branches {
-			if !c16TimerSafe(b.st, b.arms, rec.T) {
-				return true, inconclusive("m2-observation-near-detection-time")
+			safe := c16TimerSafe(b.st, b.arms, rec.T)
+			if safe && got == b.st {
+				explained = true
+			}
+			if !safe && (got == b.st || got == bfdref.Down) {
+				maybeTimeout = true
 			}
 		}
-		got := bfdref.State(rec.State)
+		if !explained && maybeTimeout {
+			return true, inconclusive("m2-observation-near-detection-time")
+		}
 		o := c16Obs{Step: si, Kind: kind, Before: cur.String(), Recv: p.State.String(), Rule: verdict.String() + "/" + reason,
 			Want: branches[0].st.String(), Got: got.String(), DtMs: rec.T.Sub(lo).Milliseconds()}
 		if len(branches) == 2 {
@@ -719,6 +732,8 @@ func c16RunHistory(r *mon.Run, h c16History, rerun bool) *c16Miss {
 		event("m2_recv_" + verdict.String())
 		var matched []c16Arm
 		nmatch := 0
+		// every branch that predicts the observed state stays possible, so
+		// its timer armings stay candidates
 		for _, b := range branches {
 			if got == b.st {
 				matched = append(matched, b.arms...)
@@ -853,17 +868,21 @@ type c16Pair struct {
 }
 
 type c16Delivery struct {
-	seq    int   // sender's sequence number
-	state  uint8 // State field of the delivered packet
-	lo, hi time.Time
-	t      time.Duration // detection time this packet establishes at the receiver
+	seq   int   // sender's sequence number; -1 for a forged packet
+	state uint8 // State field of the delivered packet
+	// certain: the receiver certainly accepted the packet (false for forged
+	// packets whose acceptance the reference does not judge).
+	certain bool
+	lo, hi  time.Time
+	t       time.Duration // detection time this packet establishes at the receiver
 }
 
 type c16Link struct {
-	name  string
-	in    chan c16Queued
-	dst   *bfd.Session
-	dstRx uint32 // receiver's required min rx, microseconds
+	name    string
+	in      chan c16Queued
+	dst     *bfd.Session
+	dstRx   uint32 // receiver's required min rx, microseconds
+	dstDisc uint32 // receiver's local discriminator
 
 	mu        sync.Mutex
 	acts      []c16Act
@@ -892,7 +911,7 @@ func (l *c16Link) push(p layers.BFD, seq int) {
 	}
 }
 
-func (l *c16Link) deliver(p *layers.BFD, seq int) bool {
+func (l *c16Link) deliver(p *layers.BFD, seq int, forged *bfdref.Packet) bool {
 	// called with l.mu held
 	done := make(chan struct{})
 	lo := time.Now()
@@ -908,14 +927,20 @@ func (l *c16Link) deliver(p *layers.BFD, seq int) bool {
 		l.stuck = true
 		return false
 	}
-	if seq < 0 {
-		return true // forged packets are not bookkept
+	certain := true
+	if forged != nil {
+		switch v, _ := bfdref.Classify(*forged, l.dstDisc); v {
+		case bfdref.Discard:
+			return true // never reaches the session's queue: arms nothing
+		case bfdref.Unjudged:
+			certain = false
+		}
 	}
 	iv := uint64(l.dstRx)
 	if uint64(p.DesiredMinTxInterval) > iv {
 		iv = uint64(p.DesiredMinTxInterval)
 	}
-	l.delivered = append(l.delivered, c16Delivery{seq: seq, state: uint8(p.State), lo: lo, hi: time.Now(),
+	l.delivered = append(l.delivered, c16Delivery{seq: seq, state: uint8(p.State), certain: certain, lo: lo, hi: time.Now(),
 		t: time.Duration(uint64(p.DetectMultiplier)*iv) * time.Microsecond})
 	return true
 }
@@ -942,14 +967,14 @@ func (l *c16Link) run(stop chan struct{}, wg *sync.WaitGroup) {
 		ok := true
 		if !l.cut {
 			if act.Forge != nil {
-				ok = l.deliver(c16Layer(*act.Forge), -1)
+				ok = l.deliver(c16Layer(*act.Forge), -1, act.Forge)
 			}
 			if ok && !act.Drop {
 				// discardable packets never reach the session's queue; they
 				// are not deliveries. Real sessions only send valid packets.
-				ok = l.deliver(&q.p, q.seq)
+				ok = l.deliver(&q.p, q.seq, nil)
 				if ok && act.Dup {
-					ok = l.deliver(&q.p, q.seq)
+					ok = l.deliver(&q.p, q.seq, nil)
 				}
 			}
 		}
@@ -1058,26 +1083,36 @@ func c16GenPair(rng *rand.Rand, idx int) c16Pair {
 // armed by delivery ds[since] or a later one) and whose first non-Up packet
 // was sent at instant t may have left Up according to RFC 5880: because a
 // Down/AdminDown packet was handed to it before t, or because a detection
-// timeout was possible — some delivery i was followed by no completed
-// hand-off until lo_i + T_i (a timer armed after lo_i cannot fire earlier, and
-// an expiry that fires after the next hand-off is cancelled by it). Sound
-// under arbitrary scheduling delays.
+// timeout was possible — the timer armed by some delivery i (it cannot fire
+// before lo_i + T_i) was not certainly re-armed in time: the next certainly
+// accepted delivery completed its hand-off at or after lo_i + T_i, or there is
+// none and t is at or after lo_i + T_i. (An expiry that fires after the next
+// hand-off is cancelled by it.) Sound under arbitrary scheduling delays.
 func c16LegitLeave(ds []c16Delivery, since int, t time.Time) (bool, string) {
-	prev := -1
+	known := false
 	for i := max(since, 0); i < len(ds) && ds[i].lo.Before(t); i++ {
+		known = true
 		if s := bfdref.State(ds[i].state); s == bfdref.Down || s == bfdref.AdminDown {
 			return true, "received " + s.String()
 		}
-		if prev >= 0 && !ds[i].hi.Before(ds[prev].lo.Add(ds[prev].t)) {
-			return true, "gap between deliveries reached the detection time"
+		expiry := ds[i].lo.Add(ds[i].t - time.Millisecond)
+		rearmed := false
+		for j := i + 1; j < len(ds) && ds[j].lo.Before(t); j++ {
+			if !ds[j].certain {
+				continue
+			}
+			rearmed = true
+			if !ds[j].hi.Before(expiry) {
+				return true, "gap between deliveries reached the detection time"
+			}
+			break
 		}
-		prev = i
+		if !rearmed && !t.Before(expiry) {
+			return true, "nothing received for the detection time"
+		}
 	}
-	if prev < 0 {
+	if !known {
 		return true, "no delivery known"
-	}
-	if !t.Before(ds[prev].lo.Add(ds[prev].t - time.Millisecond)) {
-		return true, "nothing received for the detection time"
 	}
 	return false, ""
 }
@@ -1086,8 +1121,8 @@ func c16LegitLeave(ds []c16Delivery, since int, t time.Time) (bool, string) {
 func c16RunPair(r *mon.Run, pc c16Pair, rerun bool) *c16Miss {
 	note := make(chan struct{}, 1)
 	sa, sb := newC16Sender(note), newC16Sender(note)
-	ab := &c16Link{name: "a->b", in: make(chan c16Queued, 512), acts: pc.ActsAB, dstRx: uint32(pc.B.RxMs) * 1000, note: note}
-	ba := &c16Link{name: "b->a", in: make(chan c16Queued, 512), acts: pc.ActsBA, dstRx: uint32(pc.A.RxMs) * 1000, note: note}
+	ab := &c16Link{name: "a->b", in: make(chan c16Queued, 512), acts: pc.ActsAB, dstRx: uint32(pc.B.RxMs) * 1000, dstDisc: pc.B.Disc, note: note}
+	ba := &c16Link{name: "b->a", in: make(chan c16Queued, 512), acts: pc.ActsBA, dstRx: uint32(pc.A.RxMs) * 1000, dstDisc: pc.A.Disc, note: note}
 	if len(pc.ActsAB) == 0 {
 		ab.clean, ab.cleanAt = true, time.Now()
 	}
@@ -1125,17 +1160,18 @@ func c16RunPair(r *mon.Run, pc c16Pair, rerun bool) *c16Miss {
 			n := s.count()
 			return s.snapshot(max(0, n-14))
 		}
-		dl := func(l *c16Link) [][4]float64 {
+		dl := func(l *c16Link) [][5]float64 {
 			ds := lockedDeliveries(l)
 			ds = ds[max(0, len(ds)-14):]
-			out := make([][4]float64, len(ds))
+			out := make([][5]float64, len(ds))
 			for i, d := range ds {
-				out[i] = [4]float64{float64(d.seq), float64(d.state), float64(d.lo.Sub(sa.t0).Microseconds()) / 1000, float64(d.hi.Sub(sa.t0).Microseconds()) / 1000}
+				out[i] = [5]float64{float64(d.seq), float64(d.state), float64(d.lo.Sub(sa.t0).Microseconds()) / 1000,
+					float64(d.hi.Sub(sa.t0).Microseconds()) / 1000, float64(d.t.Milliseconds())}
 			}
 			return out
 		}
 		return map[string]any{"pair": pc, "phases": phases, "last_sent_a": tail(sa), "last_sent_b": tail(sb),
-			"last_deliveries_to_b_seq_state_lo_hi_ms": dl(ab), "last_deliveries_to_a_seq_state_lo_hi_ms": dl(ba),
+			"last_deliveries_to_b_seq_state_lo_hi_detect_ms": dl(ab), "last_deliveries_to_a_seq_state_lo_hi_detect_ms": dl(ba),
 			"expected_negotiation_ms": expected.Milliseconds(), "bound_ms": bound.Milliseconds()}
 	}
 	miss := func(key, what string) *c16Miss {
@@ -1334,7 +1370,7 @@ func c16RunPair(r *mon.Run, pc c16Pair, rerun bool) *c16Miss {
 			break
 		}
 		if !rerun {
-			r.Inconclusive("m3-legitimate-flap-under-load")
+			r.Inconclusive("m3-legitimate-flap")
 		}
 		if attempt >= 3 {
 			return nil
